@@ -319,7 +319,7 @@ Lemma eval_safe_store ct e : forall st st' n,
   g_shared e = true -> eval ct e st = Some (st', n) -> st' = st.
 Proof.
   induction e using bexpr_ind'; intros st st' n Hg He.
-  - simpl in He. destruct (attr_index ct c f); inversion He; reflexivity.
+  - simpl in He. destruct (resolve_attr ct c f) as [[k fm]|]; inversion He; reflexivity.
   - simpl in He. destruct (find_fm ct c f); [|discriminate].
     destruct (fm_method f0 && args_known (fm_args f0) a); [|discriminate].
     destruct (call_vars (fm_args f0) a); inversion He; reflexivity.
@@ -410,15 +410,23 @@ Proof.
     rewrite set_fmt_nil by exact Hf. rewrite <- Hs. apply set_nth_same. exact En.
 Qed.
 
+Lemma build_sels_from_pristine st : pristine st -> forall fuel ns idx s s' sns,
+  fst s = st -> build_sels_from fuel idx s ns = Some (s', sns) -> fst s' = st.
+Proof.
+  intros Hp fuel. induction ns as [|n r IH]; simpl; intros idx s s' sns Hs H.
+  - injection H as <- _. exact Hs.
+  - destruct (to_ast fuel idx s n) as [[s1 sn]|] eqn:E; [|discriminate].
+    apply (to_ast_pristine st Hp) in E; [|exact Hs].
+    destruct (build_sels_from fuel (S idx) s1 r) as [[s2 sns2]|] eqn:E2; [|discriminate].
+    injection H as <- _. eapply IH; eassumption.
+Qed.
+
 Lemma build_sels_pristine st : pristine st -> forall fuel ns idx st' sns,
   build_sels fuel idx st ns = Some (st', sns) -> st' = st.
 Proof.
-  intros Hp fuel. induction ns as [|n r IH]; simpl; intros idx st' sns H.
-  - inversion H; reflexivity.
-  - destruct (to_ast fuel idx (st, []) n) as [[[st1 u1] sn]|] eqn:E; [|discriminate].
-    assert (st1 = st) by (apply (to_ast_pristine st Hp) in E; [exact E | reflexivity]). subst st1.
-    destruct (build_sels fuel (S idx) st r) as [[st2 sns2]|] eqn:E2; [|discriminate].
-    inversion H; subst. eapply IH. exact E2.
+  intros Hp fuel ns idx st' sns H. unfold build_sels in H.
+  destruct (build_sels_from fuel idx (st, []) ns) as [[[st1 u] sns1]|] eqn:E; [|discriminate].
+  injection H as <- _. apply (build_sels_from_pristine st Hp) in E; [exact E | reflexivity].
 Qed.
 
 Lemma run_op_safe_store ct fuel st es st' rq :
@@ -456,28 +464,626 @@ Theorem history_free_safe ct fuel hist st es :
 Proof. intros Hf H. rewrite (safe_history_keeps_store _ _ _ _ Hf H). reflexivity. Qed.
 
 (* ------------------------------------------------------------------------------------------ *)
-(* one classmethod call: under the type / serialize guards the variables put on the object are *)
-(* exactly the ideal ones (exact type, caller's value, None omitted)                           *)
+(* the generated class table is well formed: GraphQL names, exact types                        *)
 (* ------------------------------------------------------------------------------------------ *)
-Definition arg_ok (args : list (string * json)) (am : argmeta) : bool :=
-  (is_null (arg_value am args) || streq (am_type am) (am_exact am)) &&
-  negb (am_ser am && is_null (arg_value am args)).
+Definition wf_arg (am : argmeta) : Prop := am_type am = am_exact am.
+Definition wf_field (fm : fieldmeta) : Prop := fm_emit fm = fm_gql fm /\ Forall wf_arg (fm_args fm).
+Definition wf_ct (ct : list classmeta) : Prop := Forall (fun cm => Forall wf_field (cm_fields cm)) ct.
 
-Lemma call_vars_exact args ams :
-  forallb (arg_ok args) ams = true -> call_vars ams args = ideal_vars ams args.
+Lemma arg_metas_wf c l : Forall wf_arg (map (arg_meta c) l).
+Proof. apply Forall_forall. intros am H. apply in_map_iff in H as [a [<- _]]. reflexivity. Qed.
+
+Lemma field_meta_wf c s owner f : wf_field (field_meta c s owner f).
 Proof.
-  induction ams as [|am r IH]; simpl; intro H; [reflexivity|].
-  apply andb_true_iff in H as [Ha Hr]. rewrite (IH Hr). clear IH Hr.
-  unfold arg_ok, arg_value in Ha. apply andb_true_iff in Ha as [H1 H2].
-  destruct (dlookup (am_gql am) args) as [v|] eqn:El.
-  - destruct (ideal_vars r args) as [vs|]; [|reflexivity].
-    destruct (is_null v) eqn:En.
-    + destruct (am_ser am); [simpl in H2; discriminate|]. rewrite En. reflexivity.
-    + simpl in H1. apply String.eqb_eq in H1. rewrite H1.
-      destruct (am_ser am); simpl; [reflexivity | rewrite En; reflexivity].
-  - destruct (am_required am); [reflexivity|].
-    destruct (ideal_vars r args) as [vs|]; [|reflexivity].
-    destruct (am_ser am); [simpl in H2; discriminate|]. reflexivity.
+  unfold field_meta, wf_field. destruct (kind_of s (final_name (fd_type f))); simpl;
+    (split; [reflexivity | apply arg_metas_wf]).
+Qed.
+
+Lemma root_field_meta_wf c s f : wf_field (root_field_meta c s f).
+Proof. unfold root_field_meta, wf_field. simpl. split; [reflexivity | apply arg_metas_wf]. Qed.
+
+Theorem gen_classes_wf c s q m : wf_ct (gen_classes c s q m).
+Proof.
+  unfold wf_ct, gen_classes.
+  assert (R : forall n cls, Forall (fun cm => Forall wf_field (cm_fields cm))
+            (match n with
+             | Some tn => match lookup_type s tn with Some td => [root_class c s cls td] | None => [] end
+             | None => [] end)).
+  { intros [tn|] cls; [|constructor]. destruct (lookup_type s tn); constructor; [|constructor].
+    simpl. apply Forall_forall. intros fm H. apply in_map_iff in H as [f [<- _]]. apply root_field_meta_wf. }
+  apply Forall_app. split; [apply R|]. apply Forall_app. split; [apply R|].
+  apply Forall_forall. intros cm H. apply in_map_iff in H as [td [<- _]]. simpl.
+  apply Forall_forall. intros fm H. apply in_map_iff in H as [f [<- _]]. apply field_meta_wf.
+Qed.
+
+Lemma find_fm_wf ct cls f fm : wf_ct ct -> find_fm ct cls f = Some fm -> wf_field fm.
+Proof.
+  unfold find_fm, find_class, find_field. intros Hw H.
+  destruct (find (fun cm => streq (cm_name cm) cls) ct) as [cm|] eqn:E; [|discriminate].
+  apply find_some in E as [Hin _]. apply find_some in H as [Hin2 _].
+  unfold wf_ct in Hw. rewrite Forall_forall in Hw. specialize (Hw _ Hin).
+  rewrite Forall_forall in Hw. apply Hw. exact Hin2.
+Qed.
+
+Lemma attrs_wf ct : wf_ct ct -> forall p, In p (attrs ct) -> wf_field (snd p).
+Proof.
+  intros Hw p H. unfold attrs in H. apply in_flat_map in H as [cm [Hcm Hp]].
+  apply in_map_iff in Hp as [fm [<- Hfm]]. apply filter_In in Hfm as [Hfm _]. simpl.
+  unfold wf_ct in Hw. rewrite Forall_forall in Hw. specialize (Hw _ Hcm).
+  rewrite Forall_forall in Hw. apply Hw. exact Hfm.
+Qed.
+
+(* type_exact + none_omitted + values_bound for one classmethod call, unguarded: the variables put
+   on the object are the ideal ones *)
+Lemma call_vars_exact args ams :
+  Forall wf_arg ams -> call_vars ams args = ideal_vars ams args.
+Proof.
+  induction 1 as [|am r Ha _ IH]; simpl; [reflexivity|]. rewrite IH. clear IH.
+  unfold wf_arg in Ha.
+  destruct (match dlookup (am_gql am) args with
+            | Some v => Some v
+            | None => if am_required am then None else Some JNull end) as [v|]; [|reflexivity].
+  destruct (ideal_vars r args) as [vs|]; [|reflexivity].
+  rewrite Ha. destruct (is_null v) eqn:En.
+  - destruct (am_ser am); simpl; [reflexivity | rewrite En; reflexivity].
+  - destruct (am_ser am); simpl; [reflexivity | rewrite En; reflexivity].
+Qed.
+
+(* ------------------------------------------------------------------------------------------ *)
+(* variable names are unique across ALL top-level fields of an operation                       *)
+(* ------------------------------------------------------------------------------------------ *)
+Definition op_vars (sns : list (sel string * node)) : list string :=
+  flat_map (fun r : sel string * node => sel_vars (fst r)) sns.
+
+Lemma build_sels_from_handed fuel : forall ns idx s s' sns,
+  build_sels_from fuel idx s ns = Some (s', sns) -> handed (snd s) (snd s') (op_vars sns).
+Proof.
+  induction ns as [|n r IH]; simpl; intros idx s s' sns H.
+  - injection H as <- <-. apply handed_nil.
+  - destruct (to_ast fuel idx s n) as [[s1 [sl n1]]|] eqn:E; [|discriminate].
+    destruct (build_sels_from fuel (S idx) s1 r) as [[s2 sns2]|] eqn:E2; [|discriminate].
+    injection H as <- <-. unfold op_vars. simpl.
+    eapply handed_app; [eapply to_ast_handed; exact E | eapply IH; exact E2].
+Qed.
+
+Theorem unique_var_names_operation fuel st ns st' sns :
+  build_sels fuel 0 st ns = Some (st', sns) -> NoDup (op_vars sns).
+Proof.
+  unfold build_sels. intro H.
+  destruct (build_sels_from fuel 0 (st, []) ns) as [[[st1 u] sns1]|] eqn:E; [|discriminate].
+  injection H as _ <-. apply build_sels_from_handed in E. destruct E as [E _]. exact E.
+Qed.
+
+(* ------------------------------------------------------------------------------------------ *)
+(* Python dicts as association lists                                                            *)
+(* ------------------------------------------------------------------------------------------ *)
+Definition keys {X} (d : list (string * X)) : list string := map fst d.
+
+Lemma dset_fresh {X} (d : list (string * X)) k v : ~ In k (keys d) -> dset d k v = (d ++ [(k, v)])%list.
+Proof.
+  induction d as [|[k' v'] r IH]; simpl; intro H; [reflexivity|].
+  destruct (streq k k') eqn:E.
+  - apply String.eqb_eq in E. subst. exfalso. apply H. left. reflexivity.
+  - rewrite IH; [reflexivity|]. intro Hi. apply H. right. exact Hi.
+Qed.
+
+Lemma dupdate_fresh {X} (l : list (string * X)) : forall d,
+  NoDup (keys l) -> (forall k, In k (keys l) -> ~ In k (keys d)) -> dupdate d l = (d ++ l)%list.
+Proof.
+  unfold dupdate. induction l as [|[k v] r IH]; intros d Hn Hd; simpl.
+  - rewrite app_nil_r. reflexivity.
+  - simpl in Hn. inversion Hn as [|? ? Hk Hr]; subst.
+    rewrite dset_fresh by (apply Hd; left; reflexivity).
+    rewrite IH; [rewrite <- app_assoc; reflexivity | exact Hr |].
+    intros k' Hk' Hin. unfold keys in Hin. rewrite map_app in Hin. apply in_app_or in Hin as [Hin|Hin].
+    + apply (Hd k'); [right; exact Hk' | exact Hin].
+    + simpl in Hin. destruct Hin as [<-|[]]. contradiction.
+Qed.
+
+Lemma dlookup_in_nodup {X} (d : list (string * X)) k v :
+  NoDup (keys d) -> In (k, v) d -> dlookup k d = Some v.
+Proof.
+  induction d as [|[k' v'] r IH]; simpl; intros Hn Hi; [contradiction|].
+  inversion Hn as [|? ? Hk Hr]; subst. destruct Hi as [Hi|Hi].
+  - inversion Hi; subst. unfold streq. rewrite String.eqb_refl. reflexivity.
+  - destruct (streq k k') eqn:E.
+    + apply String.eqb_eq in E. subst. exfalso. apply Hk. apply in_map_iff. exists (k', v). split; auto.
+    + apply IH; assumption.
+Qed.
+
+Lemma dlookup_map {X Y} (f : X -> Y) (d : list (string * X)) k :
+  dlookup k (map (fun kv => (fst kv, f (snd kv))) d) = option_map f (dlookup k d).
+Proof.
+  induction d as [|[k' v'] r IH]; simpl; [reflexivity|]. destruct (streq k k'); [reflexivity | exact IH].
+Qed.
+
+(* ------------------------------------------------------------------------------------------ *)
+(* unfolding lemmas for the nested fixpoints                                                    *)
+(* ------------------------------------------------------------------------------------------ *)
+Fixpoint rargs {A} (look : string -> option A) (l : list (string * string)) : option (list (string * A)) :=
+  match l with
+  | [] => Some []
+  | (an, vn) :: r => match look vn, rargs look r with
+                     | Some a, Some b => Some ((an, a) :: b) | _, _ => None end
+  end.
+
+Lemma resolve_SF {A} (look : string -> option A) al nm args sels :
+  resolve look (SF al nm args sels) =
+  match rargs look args, (match sels with
+                          | None => Some None
+                          | Some l => option_map Some (omap (resolve look) l) end) with
+  | Some a, Some sl => Some (SF al nm a sl)
+  | _, _ => None end.
+Proof.
+  simpl.
+  assert (Ha : forall l0, (fix ga (l : list (string * string)) : option (list (string * A)) :=
+                match l with
+                | [] => Some []
+                | (an, vn) :: r => match look vn, ga r with
+                                   | Some a, Some b => Some ((an, a) :: b) | _, _ => None end
+                end) l0 = rargs look l0).
+  { intro l0. induction l0 as [|[an vn] r IH]; simpl; [reflexivity | rewrite IH; reflexivity]. }
+  rewrite Ha. destruct (rargs look args) as [ra|]; [|reflexivity].
+  destruct sels as [l|]; [|reflexivity].
+  assert (Hl : forall l', (fix go (l : list (sel string)) : option (list (sel A)) :=
+                match l with
+                | [] => Some []
+                | x :: r => match resolve look x, go r with Some a, Some b => Some (a :: b) | _, _ => None end
+                end) l' = omap (resolve look) l').
+  { intro l'. induction l' as [|x r IH]; simpl; [reflexivity | rewrite IH; reflexivity]. }
+  rewrite Hl. reflexivity.
+Qed.
+
+Lemma resolve_SI {A} (look : string -> option A) t l :
+  resolve look (SI t l) = option_map (SI t) (omap (resolve look) l).
+Proof.
+  simpl. f_equal. induction l as [|x r IH]; simpl; [reflexivity | rewrite IH; reflexivity].
+Qed.
+
+Lemma resolves_omap {A} (look : string -> option A) l : resolves look l = omap (resolve look) l.
+Proof. induction l as [|x r IH]; simpl; [reflexivity | rewrite IH; reflexivity]. Qed.
+
+Lemma omap_app {X Y} (f : X -> option Y) a b :
+  omap f (a ++ b) = match omap f a, omap f b with Some x, Some y => Some (x ++ y)%list | _, _ => None end.
+Proof.
+  induction a as [|x r IH]; simpl.
+  - destruct (omap f b); reflexivity.
+  - destruct (f x); [|reflexivity]. rewrite IH. destruct (omap f r); [|reflexivity].
+    destruct (omap f b); reflexivity.
+Qed.
+
+Lemma ideals_fix ct es :
+  (fix go (l : list bexpr) : option (list node) :=
+     match l with
+     | [] => Some []
+     | x :: r => match ideal ct x, go r with Some n, Some ns => Some (n :: ns) | _, _ => None end
+     end) es = ideals ct es.
+Proof. induction es as [|x r IH]; simpl; [reflexivity | rewrite IH; reflexivity]. Qed.
+
+(* ------------------------------------------------------------------------------------------ *)
+(* Step A: evaluated object graph ~ ideal object tree                                           *)
+(* ------------------------------------------------------------------------------------------ *)
+(* [sim st n ni]: the evaluated graph n (shared references into the pristine store st) is the
+   ideal tree ni with its attribute leaves replaced by references *)
+Inductive sim (st : store) : node -> node -> Prop :=
+| sim_sh k d : nth_error st k = Some (N d [] []) -> d_vars d = [] -> d_fmt d = [] ->
+               sim st (Sh k) (N d [] [])
+| sim_n d subs subs' frs frs' :
+    d_fmt d = [] -> Forall2 (sim st) subs subs' ->
+    Forall2 (fun a b : string * list node => fst a = fst b /\ Forall2 (sim st) (snd a) (snd b)) frs frs' ->
+    sim st (N d subs frs) (N d subs' frs').
+
+Definition fragrel (st : store) (a b : string * list node) : Prop :=
+  fst a = fst b /\ Forall2 (sim st) (snd a) (snd b).
+
+Lemma dset_fragrel st frs frs' t ns ns' :
+  Forall2 (fragrel st) frs frs' -> Forall2 (sim st) ns ns' ->
+  Forall2 (fragrel st) (dset frs t ns) (dset frs' t ns').
+Proof.
+  induction 1 as [|[k a] [k' b] r r' [Hk Hab] Hr IH]; simpl; intro Hn.
+  - constructor; [split; [reflexivity | exact Hn] | constructor].
+  - simpl in Hk. subst k'. destruct (streq t k).
+    + constructor; [split; [reflexivity | exact Hn] | exact Hr].
+    + constructor; [split; [reflexivity | exact Hab] | apply IH; exact Hn].
+Qed.
+
+Lemma nth_store0 ct k p : nth_error (attrs ct) k = Some p ->
+  nth_error (store0 ct) k = Some (N (fresh_data (fm_emit (snd p)) (fm_okind (snd p)) []) [] []).
+Proof. intro H. unfold store0. rewrite nth_error_map, H. reflexivity. Qed.
+
+Lemma evals_sim ct es :
+  Forall (fun e => forall st' n ni, g_shared e = true -> eval ct e (store0 ct) = Some (st', n) ->
+                   ideal ct e = Some ni -> sim (store0 ct) n ni) es ->
+  forall st' ns nis, forallb g_shared es = true -> evals ct es (store0 ct) = Some (st', ns) ->
+  ideals ct es = Some nis -> Forall2 (sim (store0 ct)) ns nis.
+Proof.
+  induction 1 as [|x r Hx Hr IH]; intros st' ns nis Hg He Hi; simpl in *.
+  - injection He as _ <-. injection Hi as <-. constructor.
+  - apply andb_true_iff in Hg as [G1 G2].
+    destruct (eval ct x (store0 ct)) as [[st1 n]|] eqn:E; [|discriminate].
+    assert (st1 = store0 ct) by (eapply eval_safe_store; eassumption). subst st1.
+    destruct (evals ct r (store0 ct)) as [[st2 ns2]|] eqn:E2; [|discriminate].
+    destruct (ideal ct x) as [ni|] eqn:I1; [|discriminate].
+    destruct (ideals ct r) as [nis2|] eqn:I2; [|discriminate].
+    injection He as _ <-. injection Hi as <-. constructor.
+    + eapply Hx; eauto.
+    + eapply IH; eauto.
+Qed.
+
+Lemma sim_N_inv st d subs frs ni : sim st (N d subs frs) ni ->
+  exists subs' frs', ni = N d subs' frs' /\ d_fmt d = [] /\ Forall2 (sim st) subs subs' /\
+                     Forall2 (fragrel st) frs frs'.
+Proof. intro H. inversion H; subst. eexists. eexists. repeat split; eauto. Qed.
+
+Lemma eval_sim ct : wf_ct ct -> forall e st' n ni,
+  g_shared e = true -> eval ct e (store0 ct) = Some (st', n) -> ideal ct e = Some ni ->
+  sim (store0 ct) n ni.
+Proof.
+  intros Hw. induction e using bexpr_ind'; intros st' n ni Hg He Hi.
+  - simpl in He, Hi. unfold resolve_attr in *.
+    destruct (attr_index ct c f) as [k|]; [|discriminate].
+    destruct (nth_error (attrs ct) k) as [p|] eqn:En; [|discriminate].
+    injection He as _ <-. injection Hi as <-.
+    pose proof (attrs_wf ct Hw p (nth_error_In _ _ En)) as [Hemit _].
+    rewrite <- Hemit. apply sim_sh; [apply nth_store0; exact En | reflexivity | reflexivity].
+  - simpl in He, Hi. destruct (find_fm ct c f) as [fm|] eqn:Ef; [|discriminate].
+    destruct (fm_method fm && args_known (fm_args fm) a); [|discriminate].
+    destruct (find_fm_wf _ _ _ _ Hw Ef) as [Hemit Hargs].
+    rewrite (call_vars_exact a _ Hargs) in He.
+    destruct (ideal_vars (fm_args fm) a) as [vs|]; [|discriminate].
+    injection He as _ <-. injection Hi as <-. rewrite Hemit.
+    apply sim_n; [reflexivity | constructor | constructor].
+  - simpl in Hg. rewrite g_shared_fix in Hg. apply andb_true_iff in Hg as [G1 G2].
+    simpl in He, Hi. rewrite ideals_fix in Hi.
+    destruct (eval ct e (store0 ct)) as [[st1 [d subs frs|k]]|] eqn:E; try discriminate.
+    destruct (can_fields (d_kind d)) eqn:Ec; [|discriminate]. rewrite evals_fix in He.
+    assert (st1 = store0 ct) by (eapply eval_safe_store; eassumption). subst st1.
+    destruct (evals ct es (store0 ct)) as [[st2 ns]|] eqn:E2; [|discriminate].
+    destruct (ideal ct e) as [ni0|] eqn:I1; [|discriminate].
+    destruct (ideals ct es) as [nis|] eqn:I2; [|destruct ni0; discriminate].
+    specialize (IHe _ _ _ G1 eq_refl eq_refl).
+    apply sim_N_inv in IHe as [subs' [frs' [-> [Hf [Hs Hfr]]]]].
+    rewrite Ec in Hi. injection He as _ <-. injection Hi as <-.
+    apply sim_n; [exact Hf | | exact Hfr].
+    apply Forall2_app; [exact Hs|]. eapply evals_sim; eauto.
+  - simpl in Hg. apply andb_true_iff in Hg as [G1 G2]. simpl in He, Hi.
+    destruct (eval ct e (store0 ct)) as [[st1 n1]|] eqn:E; [|discriminate].
+    destruct (recv_fresh_inline _ _ _ _ _ G1 E) as [d [subs [frs ->]]].
+    destruct (ideal ct e) as [ni0|] eqn:I1; [|discriminate].
+    specialize (IHe _ _ _ G2 eq_refl eq_refl).
+    apply sim_N_inv in IHe as [subs' [frs' [-> [Hf [Hs Hfr]]]]].
+    injection He as _ <-. injection Hi as <-.
+    apply sim_n; [destruct d; exact Hf | exact Hs | exact Hfr].
+  - simpl in Hg. rewrite g_shared_fix in Hg.
+    apply andb_true_iff in Hg as [G12 G3]. apply andb_true_iff in G12 as [G1 G2].
+    simpl in He, Hi. rewrite ideals_fix in Hi.
+    destruct (eval ct e (store0 ct)) as [[st1 n1]|] eqn:E; [|discriminate].
+    destruct (recv_fresh_inline _ _ _ _ _ G1 E) as [d [subs [frs ->]]].
+    destruct (can_on (d_kind d)) eqn:Ec; [|discriminate]. rewrite evals_fix in He.
+    assert (st1 = store0 ct) by (eapply eval_safe_store; eassumption). subst st1.
+    destruct (evals ct es (store0 ct)) as [[st2 ns]|] eqn:E2; [|discriminate].
+    destruct (ideal ct e) as [ni0|] eqn:I1; [|discriminate].
+    destruct (ideals ct es) as [nis|] eqn:I2; [|destruct ni0; discriminate].
+    specialize (IHe _ _ _ G2 eq_refl eq_refl).
+    apply sim_N_inv in IHe as [subs' [frs' [-> [Hf [Hs Hfr]]]]].
+    rewrite Ec in Hi. injection He as _ <-. injection Hi as <-.
+    apply sim_n; [exact Hf | exact Hs |].
+    apply dset_fragrel; [exact Hfr|]. eapply evals_sim; eauto.
+Qed.
+
+(* ------------------------------------------------------------------------------------------ *)
+(* Step B: to_ast + get_formatted_variables of a sharing-free graph resolve to the ideal        *)
+(* ------------------------------------------------------------------------------------------ *)
+Definition frag_step (f idx : nat) (s' : tstate) (fr : string * list node)
+  : option (tstate * (string * list (sel string * node))) :=
+  match thread (to_ast f idx) s' (snd fr) with
+  | Some (s'', cs) => Some (s'', (fst fr, cs))
+  | None => None end.
+
+Definition node_sl (d : ndata) (subs : list node) (frs : list (string * list node)) (fmt : list fvar)
+  (rs : list (sel string * node)) (frs' : list (string * list (sel string * node))) : sel string :=
+  SF (eff_alias (d_alias d)) (d_name d)
+     (map (fun fv => (v_name (fv_var fv), fv_key fv)) fmt)
+     (if is_nil subs && is_nil frs then None
+      else Some (map (fun r => fst r) rs ++
+                 map (fun fr => SI (fst fr) (map (fun r => fst r) (snd fr))) frs')%list).
+
+Lemma to_ast_N_inv f idx s d subs frs s' sl n' :
+  to_ast (S f) idx s (N d subs frs) = Some (s', (sl, n')) ->
+  exists used1 fmt s2 rs frs',
+    collect idx (snd s) (d_vars d) = Some (used1, fmt) /\
+    thread (to_ast f idx) (fst s, used1) subs = Some (s2, rs) /\
+    thread (frag_step f idx) s2 frs = Some (s', frs') /\
+    sl = node_sl d subs frs fmt rs frs' /\
+    n' = N (set_fmt d fmt) (map (fun r => snd r) rs)
+           (map (fun fr => (fst fr, map (fun r => snd r) (snd fr))) frs').
+Proof.
+  intro H. simpl in H.
+  destruct (collect idx (snd s) (d_vars d)) as [[used1 fmt]|] eqn:Ec; [|discriminate].
+  destruct (thread (to_ast f idx) (fst s, used1) subs) as [[s2 rs]|] eqn:E1; [|discriminate].
+  change (fun (s' : tstate) (fr : string * list node) =>
+            match thread (to_ast f idx) s' (snd fr) with
+            | Some (s'', cs) => Some (s'', (fst fr, cs))
+            | None => None end) with (frag_step f idx) in H.
+  destruct (thread (frag_step f idx) s2 frs) as [[s3 frs']|] eqn:E2; [|discriminate].
+  injection H as <- <- <-. exists used1, fmt, s2, rs, frs'. repeat split; assumption.
+Qed.
+
+Definition rs_vars (rs : list (sel string * node)) : list string :=
+  flat_map (fun r : sel string * node => sel_vars (fst r)) rs.
+Definition frs_vars (frs' : list (string * list (sel string * node))) : list string :=
+  flat_map (fun fr : string * list (sel string * node) => rs_vars (snd fr)) frs'.
+
+Lemma thread_nil_inv {St X Y} (g : St -> X -> option (St * Y)) s s' ys :
+  thread g s [] = Some (s', ys) -> ys = [].
+Proof. simpl. intro H. injection H as _ <-. reflexivity. Qed.
+
+Lemma sel_vars_node d subs frs fmt rs frs' :
+  (subs = [] -> rs = []) -> (frs = [] -> frs' = []) ->
+  sel_vars (node_sl d subs frs fmt rs frs') = (map fv_key fmt ++ rs_vars rs ++ frs_vars frs')%list.
+Proof.
+  intros H1 H2. unfold node_sl. simpl. rewrite map_map. simpl. f_equal.
+  destruct (is_nil subs && is_nil frs) eqn:En.
+  - apply andb_true_iff in En as [Ea Eb]. destruct subs; [|discriminate]. destruct frs; [|discriminate].
+    rewrite H1, H2 by reflexivity. reflexivity.
+  - rewrite sel_vars_go, flat_map_app, !flat_map_map. unfold rs_vars, frs_vars. f_equal.
+    apply flat_map_ext. intros [t cs]. simpl. rewrite sel_vars_go, flat_map_map. reflexivity.
+Qed.
+
+Lemma nodup_app_inv {X} (a b : list X) :
+  NoDup (a ++ b) -> NoDup a /\ NoDup b /\ (forall x, In x a -> In x b -> False).
+Proof.
+  induction a as [|x a IH]; simpl; intro H.
+  - repeat split; [constructor | exact H | intros ? []].
+  - inversion H as [|? ? Hx Hr]; subst. destruct (IH Hr) as [Ha [Hb Hd]]. repeat split.
+    + constructor; [|exact Ha]. intro Hi. apply Hx. apply in_or_app. left. exact Hi.
+    + exact Hb.
+    + intros y [<-|Hy] Hyb; [apply Hx; apply in_or_app; right; exact Hyb | eapply Hd; eassumption].
+Qed.
+
+Lemma Forall2_is_nil {X Y} (R : X -> Y -> Prop) a b : Forall2 R a b -> is_nil a = is_nil b.
+Proof. destruct 1; reflexivity. Qed.
+
+Section Faithful.
+Context {A : Type} (pj : var -> A) (st : store) (Hp : pristine st).
+
+Definition agree (L : string -> option A) (G : list (string * var)) : Prop :=
+  forall k v, In (k, v) G -> L k = Some (pj v).
+
+Lemma agree_app L a b : agree L (a ++ b) -> agree L a /\ agree L b.
+Proof. intro H. split; intros k v Hi; apply H; apply in_or_app; [left|right]; exact Hi. Qed.
+
+Lemma rargs_fmt L fmt : agree L (map fmt_entry fmt) ->
+  rargs L (map (fun fv => (v_name (fv_var fv), fv_key fv)) fmt)
+  = Some (map (fun v => (v_name v, pj v)) (map fv_var fmt)).
+Proof.
+  induction fmt as [|fv r IH]; simpl; intro H; [reflexivity|].
+  rewrite (H (fv_key fv) (fv_var fv)) by (left; reflexivity).
+  rewrite IH; [reflexivity|]. intros k v Hi. apply H. right. exact Hi.
+Qed.
+
+Definition Gs (f : nat) (rs : list (sel string * node)) : list (string * var) :=
+  flat_map (fun r : sel string * node => get_formatted_variables f st (snd r)) rs.
+Definition Gf (f : nat) (frs' : list (string * list (sel string * node))) : list (string * var) :=
+  flat_map (fun fr : string * list (sel string * node) => Gs f (snd fr)) frs'.
+
+Definition goodB (f : nat) : Prop := forall idx s n ni s' sl n',
+  fst s = st -> sim st n ni -> to_ast f idx s n = Some (s', (sl, n')) ->
+  keys (get_formatted_variables f st n') = sel_vars sl /\
+  (forall L, agree L (get_formatted_variables f st n') ->
+   forall f2 isl, node_sel pj f2 ni = Some isl -> resolve L sl = Some isl).
+
+Lemma B_list f (IH : goodB f) idx : forall xs xis, Forall2 (sim st) xs xis ->
+  forall s s' rs, fst s = st -> thread (to_ast f idx) s xs = Some (s', rs) ->
+  fst s' = st /\ keys (Gs f rs) = rs_vars rs /\
+  (forall L, agree L (Gs f rs) -> forall f2 isls, omap (node_sel pj f2) xis = Some isls ->
+   omap (resolve L) (map (fun r => fst r) rs) = Some isls).
+Proof.
+  induction 1 as [|x xi xs xis Hx Hxs IHl]; intros s s' rs Hs H; simpl in H.
+  - injection H as <- <-. split; [exact Hs|]. split; [reflexivity|].
+    intros L _ f2 isls Hi. simpl in Hi. injection Hi as <-. reflexivity.
+  - destruct (to_ast f idx s x) as [[s1 [sl n1]]|] eqn:E1; [|discriminate].
+    destruct (thread (to_ast f idx) s1 xs) as [[s2 rs2]|] eqn:E2; [|discriminate].
+    injection H as <- <-.
+    pose proof (to_ast_pristine st Hp _ _ _ _ _ _ Hs E1) as Hs1.
+    destruct (IH _ _ _ _ _ _ _ Hs Hx E1) as [K1 R1].
+    destruct (IHl _ _ _ Hs1 E2) as [Hs2 [K2 R2]].
+    split; [exact Hs2|]. split.
+    + unfold Gs, rs_vars, keys in *. simpl. rewrite map_app. simpl in K1. rewrite K1, K2. reflexivity.
+    + intros L Ha f2 isls Hi. unfold Gs in Ha. simpl in Ha. apply agree_app in Ha as [Ha1 Ha2].
+      simpl in Hi. destruct (node_sel pj f2 xi) as [a|] eqn:N1; [|discriminate].
+      destruct (omap (node_sel pj f2) xis) as [b|] eqn:N2; [|discriminate]. injection Hi as <-.
+      simpl. rewrite (R1 L Ha1 f2 a N1). rewrite (R2 L Ha2 f2 b N2). reflexivity.
+Qed.
+
+Lemma B_frags f (IH : goodB f) idx : forall frs frsi, Forall2 (fragrel st) frs frsi ->
+  forall s s' frs', fst s = st -> thread (frag_step f idx) s frs = Some (s', frs') ->
+  fst s' = st /\ keys (Gf f frs') = frs_vars frs' /\
+  (forall L, agree L (Gf f frs') -> forall f2 isls,
+   omap (fun fr : string * list node => option_map (SI (fst fr)) (omap (node_sel pj f2) (snd fr))) frsi = Some isls ->
+   omap (resolve L) (map (fun fr => SI (fst fr) (map (fun r => fst r) (snd fr))) frs') = Some isls).
+Proof.
+  induction 1 as [|x xi xs xis [Hk Hx] Hxs IHl]; intros s s' frs' Hs H; simpl in H.
+  - injection H as <- <-. split; [exact Hs|]. split; [reflexivity|].
+    intros L _ f2 isls Hi. simpl in Hi. injection Hi as <-. reflexivity.
+  - unfold frag_step at 1 in H.
+    destruct (thread (to_ast f idx) s (snd x)) as [[s1 cs]|] eqn:E1; [|discriminate].
+    destruct (thread (frag_step f idx) s1 xs) as [[s2 rs2]|] eqn:E2; [|discriminate].
+    injection H as <- <-.
+    destruct (B_list f IH idx _ _ Hx _ _ _ Hs E1) as [Hs1 [K1 R1]].
+    destruct (IHl _ _ _ Hs1 E2) as [Hs2 [K2 R2]].
+    split; [exact Hs2|]. split.
+    + unfold Gf, frs_vars, keys in *. simpl. rewrite map_app. rewrite K2. f_equal. exact K1.
+    + intros L Ha f2 isls Hi. unfold Gf in Ha. simpl in Ha. apply agree_app in Ha as [Ha1 Ha2].
+      simpl in Hi.
+      destruct (omap (node_sel pj f2) (snd xi)) as [a|] eqn:N1; [|discriminate]. simpl in Hi.
+      destruct (omap (fun fr : string * list node =>
+                        option_map (SI (fst fr)) (omap (node_sel pj f2) (snd fr))) xis) as [b|] eqn:N2;
+        [|discriminate]. injection Hi as <-.
+      cbn [map omap fst snd]. rewrite resolve_SI. rewrite (R1 L Ha1 f2 a N1). cbn [option_map].
+      rewrite (R2 L Ha2 f2 b N2). rewrite Hk. reflexivity.
+Qed.
+
+Lemma goodB_all : forall f, goodB f.
+Proof.
+  induction f as [|f IH]; intros idx s n ni s' sl n' Hs Hsim H; [discriminate|].
+  destruct Hsim as [k d Hn Hv Hf | d subs subs' frs frs' Hf Hsubs Hfrs].
+  - (* shared attribute leaf *)
+    simpl in H. rewrite Hs, Hn in H.
+    destruct f as [|f']; [discriminate|]. simpl in H. rewrite Hv in H. simpl in H.
+    injection H as _ <- <-. split.
+    + simpl. rewrite Hn, Hf. reflexivity.
+    + intros L _ f2 isl Hi. destruct f2 as [|f2']; [discriminate|]. simpl in Hi. rewrite Hv in Hi.
+      injection Hi as <-. rewrite resolve_SF. reflexivity.
+  - (* inline object *)
+    pose proof (to_ast_handed _ _ _ _ _ _ _ H) as [Hnd _].
+    apply to_ast_N_inv in H as [used1 [fmt [s2 [rs [frs2 [Ec [E1 [E2 [-> ->]]]]]]]]].
+    apply collect_handed in Ec as [_ Hvars].
+    destruct (B_list f IH idx _ _ Hsubs (fst s, used1) _ _ Hs E1) as [Hs2 [K1 R1]].
+    destruct (B_frags f IH idx _ _ Hfrs _ _ _ Hs2 E2) as [Hs3 [K2 R2]].
+    assert (Hsv : sel_vars (node_sl d subs frs fmt rs frs2)
+                  = (map fv_key fmt ++ rs_vars rs ++ frs_vars frs2)%list).
+    { apply sel_vars_node; intros ->.
+      - eapply thread_nil_inv. exact E1.
+      - eapply thread_nil_inv. exact E2. }
+    rewrite Hsv in Hnd.
+    assert (HG : get_formatted_variables (S f) st
+                   (N (set_fmt d fmt) (map (fun r => snd r) rs)
+                      (map (fun fr => (fst fr, map (fun r => snd r) (snd fr))) frs2))
+                 = (map fmt_entry fmt ++ Gs f rs ++ Gf f frs2)%list).
+    { simpl. rewrite !flat_map_map. simpl.
+      replace (flat_map (fun x : string * list (sel string * node) =>
+                 flat_map (get_formatted_variables f st) (map (fun r => snd r) (snd x))) frs2)
+        with (Gf f frs2)
+        by (unfold Gf, Gs; apply flat_map_ext; intros [t cs]; simpl; rewrite flat_map_map; reflexivity).
+      change (flat_map (fun x : sel string * node => get_formatted_variables f st (snd x)) rs) with (Gs f rs).
+      apply nodup_app_inv in Hnd as [_ [Hn2 Hd]].
+      apply dupdate_fresh.
+      - unfold keys. rewrite map_app. unfold keys in K1, K2. rewrite K1, K2. exact Hn2.
+      - intros k Hk Hk2. unfold keys in Hk, Hk2. rewrite map_app in Hk. unfold keys in K1, K2.
+        rewrite K1, K2 in Hk. rewrite map_map in Hk2. simpl in Hk2. eapply Hd; eassumption. }
+    rewrite HG. split.
+    + unfold keys. rewrite !map_app. unfold keys in K1, K2. rewrite K1, K2, Hsv, map_map. reflexivity.
+    + intros L Ha f2 isl Hi. apply agree_app in Ha as [Ha0 Ha12]. apply agree_app in Ha12 as [Ha1 Ha2].
+      destruct f2 as [|f2']; [discriminate|]. simpl in Hi.
+      destruct (omap (node_sel pj f2') subs') as [ss|] eqn:N1; [|discriminate].
+      destruct (omap (fun fr : string * list node =>
+                        option_map (SI (fst fr)) (omap (node_sel pj f2') (snd fr))) frs') as [fs|] eqn:N2;
+        [|discriminate].
+      injection Hi as <-. unfold node_sl. rewrite resolve_SF.
+      rewrite (rargs_fmt L fmt Ha0), Hvars.
+      rewrite <- (Forall2_is_nil _ _ _ Hsubs), <- (Forall2_is_nil _ _ _ Hfrs).
+      destruct (is_nil subs && is_nil frs); [reflexivity|].
+      rewrite omap_app, (R1 L Ha1 f2' ss N1), (R2 L Ha2 f2' fs N2). reflexivity.
+Qed.
+End Faithful.
+
+(* ------------------------------------------------------------------------------------------ *)
+(* Step C: the whole operation                                                                  *)
+(* ------------------------------------------------------------------------------------------ *)
+Lemma C_list st (Hp : pristine st) fuel : forall ns nis, Forall2 (sim st) ns nis ->
+  forall idx s s' sns, fst s = st -> build_sels_from fuel idx s ns = Some (s', sns) ->
+  keys (Gs st fuel sns) = op_vars sns /\
+  (forall L, agree tv L (Gs st fuel sns) -> forall f2 isls, omap (node_sel tv f2) nis = Some isls ->
+   omap (resolve L) (map (fun r => fst r) sns) = Some isls).
+Proof.
+  induction 1 as [|x xi xs xis Hx Hxs IHl]; intros idx s s' sns Hs H; simpl in H.
+  - injection H as _ <-. split; [reflexivity|].
+    intros L _ f2 isls Hi. simpl in Hi. injection Hi as <-. reflexivity.
+  - destruct (to_ast fuel idx s x) as [[s1 [sl n1]]|] eqn:E1; [|discriminate].
+    destruct (build_sels_from fuel (S idx) s1 xs) as [[s2 rs2]|] eqn:E2; [|discriminate].
+    injection H as _ <-.
+    pose proof (to_ast_pristine st Hp _ _ _ _ _ _ Hs E1) as Hs1.
+    destruct (goodB_all tv st Hp fuel _ _ _ _ _ _ _ Hs Hx E1) as [K1 R1].
+    destruct (IHl _ _ _ _ Hs1 E2) as [K2 R2]. split.
+    + unfold Gs, op_vars, keys in *. simpl. rewrite map_app. simpl in K1. rewrite K1, K2. reflexivity.
+    + intros L Ha f2 isls Hi. unfold Gs in Ha. simpl in Ha. apply agree_app in Ha as [Ha1 Ha2].
+      simpl in Hi. destruct (node_sel tv f2 xi) as [a|] eqn:N1; [|discriminate].
+      destruct (omap (node_sel tv f2) xis) as [b|] eqn:N2; [|discriminate]. injection Hi as <-.
+      simpl. rewrite (R1 L Ha1 f2 a N1). rewrite (R2 L Ha2 f2 b N2). reflexivity.
+Qed.
+
+Lemma combine_concat {X} (g : X -> list (string * var)) : forall l acc,
+  NoDup (keys acc ++ keys (flat_map g l)) ->
+  fold_left (fun acc n => dupdate acc (g n)) l acc = (acc ++ flat_map g l)%list.
+Proof.
+  induction l as [|x r IH]; intros acc Hn; simpl.
+  - rewrite app_nil_r. reflexivity.
+  - simpl in Hn. unfold keys in Hn. rewrite map_app in Hn.
+    rewrite dupdate_fresh.
+    + rewrite IH; [rewrite <- app_assoc; reflexivity|].
+      unfold keys. rewrite map_app, <- app_assoc. exact Hn.
+    + apply nodup_app_inv in Hn as [_ [Hn _]]. apply nodup_app_inv in Hn as [Hn _]. exact Hn.
+    + intros k Hk Hk2. apply nodup_app_inv in Hn as [_ [_ Hd]].
+      apply (Hd k Hk2). apply in_or_app. left. exact Hk.
+Qed.
+
+Lemma evals_sim_all ct (Hw : wf_ct ct) es st' ns nis :
+  forallb g_shared es = true -> evals ct es (store0 ct) = Some (st', ns) ->
+  ideals ct es = Some nis -> Forall2 (sim (store0 ct)) ns nis.
+Proof.
+  apply evals_sim. apply Forall_forall. intros e _. intros. eapply eval_sim; eassumption.
+Qed.
+
+(* doc_valid + values_bound, composed: for an operation that does not call alias()/on() on a shared
+   object, run right after import, the request resolves to the ideal request; the declared variables
+   are exactly the variables used, each once, and each is bound *)
+Theorem doc_valid_store0 ct fuel f2 es st' rq idl :
+  wf_ct ct -> forallb g_shared es = true ->
+  run_op ct fuel (store0 ct) es = Some (st', rq) -> ideal_sels ct f2 es = Some idl ->
+  resolves (look_req rq) (r_sels rq) = Some idl /\
+  NoDup (keys (r_vardefs rq)) /\
+  keys (r_vardefs rq) = flat_map sel_vars (r_sels rq) /\
+  keys (r_values rq) = keys (r_vardefs rq) /\
+  st' = store0 ct.
+Proof.
+  intros Hw Hg Hr Hi. unfold run_op in Hr.
+  destruct (evals ct es (store0 ct)) as [[st1 ns]|] eqn:Ee; [|discriminate].
+  assert (st1 = store0 ct) by (eapply evals_safe_store; eassumption). subst st1.
+  unfold ideal_sels in Hi. destruct (ideals ct es) as [nis|] eqn:Ei; [|discriminate].
+  pose proof (evals_sim_all ct Hw _ _ _ _ Hg Ee Ei) as Hsim.
+  unfold build_request in Hr.
+  destruct (build_sels fuel 0 (store0 ct) ns) as [[st2 sns]|] eqn:Eb; [|discriminate].
+  pose proof (unique_var_names_operation _ _ _ _ _ Eb) as Hnd.
+  pose proof (build_sels_pristine _ (store0_pristine ct) _ _ _ _ _ Eb) as ->.
+  unfold build_sels in Eb.
+  destruct (build_sels_from fuel 0 (store0 ct, []) ns) as [[[st3 u3] sns3]|] eqn:Ef; [|discriminate].
+  injection Eb as _ ->.
+  destruct (C_list _ (store0_pristine ct) fuel _ _ Hsim 0 (store0 ct, []) _ _ eq_refl Ef) as [K R].
+  injection Hr as <- <-. cbn [r_sels r_vardefs r_values].
+  set (comb := combine fuel (store0 ct) (map (fun r => snd r) sns)).
+  assert (Hc : comb = Gs (store0 ct) fuel sns).
+  { unfold comb, combine. rewrite combine_concat.
+    - simpl. unfold Gs. rewrite flat_map_map. reflexivity.
+    - simpl. rewrite flat_map_map. change (keys (Gs (store0 ct) fuel sns)) with (keys (Gs (store0 ct) fuel sns)).
+      fold (Gs (store0 ct) fuel sns). rewrite K. exact Hnd. }
+  assert (Hk : keys comb = op_vars sns) by (rewrite Hc; exact K).
+  assert (Hk1 : forall (Y : Type) (h : var -> Y),
+            keys (map (fun kv : string * var => (fst kv, h (snd kv))) comb) = keys comb).
+  { intros. unfold keys. rewrite map_map. reflexivity. }
+  repeat split.
+  - rewrite resolves_omap. apply (R (look_req _)) with (f2 := f2); [|exact Hi].
+    intros k v Hin. rewrite <- Hc in Hin. unfold look_req. cbn [r_vardefs r_values].
+    rewrite (dlookup_map v_type), (dlookup_map v_value).
+    rewrite (dlookup_in_nodup comb k v); [reflexivity | rewrite Hk; exact Hnd | exact Hin].
+  - rewrite Hk1, Hk. exact Hnd.
+  - rewrite Hk1, Hk. unfold op_vars. rewrite flat_map_map. reflexivity.
+  - rewrite !Hk1. reflexivity.
+Qed.
+
+(* the same after ANY history free of shared mutations *)
+Theorem doc_valid ct fuel f2 hist st es st' rq idl :
+  wf_ct ct ->
+  Forall (fun es => forallb g_shared es = true) hist -> forallb g_shared es = true ->
+  run_hist ct fuel (store0 ct) hist = Some st ->
+  run_op ct fuel st es = Some (st', rq) -> ideal_sels ct f2 es = Some idl ->
+  resolves (look_req rq) (r_sels rq) = Some idl /\
+  NoDup (keys (r_vardefs rq)) /\
+  keys (r_vardefs rq) = flat_map sel_vars (r_sels rq) /\
+  keys (r_values rq) = keys (r_vardefs rq).
+Proof.
+  intros Hw Hh Hg Hr Ho Hi. rewrite (safe_history_keeps_store _ _ _ _ Hh Hr) in Ho.
+  destruct (doc_valid_store0 _ _ _ _ _ _ _ Hw Hg Ho Hi) as [H1 [H2 [H3 [H4 _]]]]. auto.
 Qed.
 
 (* ------------------------------------------------------------------------------------------ *)
@@ -513,7 +1119,7 @@ Definition ct := gen_classes conf schema (Some "Query") None.
 
 Definition pid := Attr "PersonFields" "id".
 Definition person1 := Call "Query" "person" [("id", JStr "1")].
-(* one expression per defect class; every OTHER guard holds on it *)
+(* one expression per REPAIRED defect class (regression cases; the harness replays them too) *)
 Definition e_types := Fields (Call "Query" "animals" [("ids", JArr [JStr "1"])]) [Attr "AnimalInterface" "id"].
 Definition e_names := Fields person1 [Fields (Call "PersonFields" "pets" [])
                         [Fields (Call "AnimalInterface" "best_friend" []) [Attr "AnimalInterface" "name"]]].
@@ -530,7 +1136,7 @@ Definition es_collide :=
    Fields (Call "Query" "p" [("a_0", JInt 3%Z)]) [Call "PersonFields" "x" [("a", JInt 7%Z)]]].
 Definition ns_collide : list node :=
   match evals ct es_collide (store0 ct) with Some (_, ns) => ns | None => [] end.
-(* a non-trivial expression on which every guard holds *)
+(* a non-trivial two-field operation without shared mutation *)
 Definition es_good :=
   [Fields (Alias person1 "q") [pid; Attr "PersonFields" "full_name";
       Fields (Call "PersonFields" "friend" [("since", JStr "t0")]) [pid];
@@ -555,3 +1161,4 @@ Proof.
   induction 1 as [|x l Hx _ IH]; simpl; [reflexivity|].
   rewrite IH. apply mem_false in Hx. rewrite Hx. reflexivity.
 Qed.
+
